@@ -98,19 +98,52 @@ def make_records(case):
     return recs
 
 
-def write(root, recs, order_seed, per_file):
+def write(root, recs, order_seed, per_file, mode='dir'):
+    """Write the records; returns what to hand to Analysis: the directory,
+    or (modes 'paths', 'zips') a list of paths in a generated order - plain
+    files, sub-directories and zip archives, as `panqec analyze P1 P2 ...`
+    and the Analysis docstring allow."""
+    import zipfile
     os.makedirs(root)
     rng = np.random.default_rng(order_seed)
     idx = rng.permutation(len(recs))
     files = [idx[i:i + per_file] for i in range(0, len(idx), per_file)]
+    n_parts = 1 if mode == 'dir' else int(rng.integers(2, 5))
+    parts = [[] for _ in range(n_parts)]
     for j, chunk in enumerate(files):
         data = [recs[int(i)] for i in chunk]
-        if j % 2 == 0:
-            with gzip.open(os.path.join(root, f'r{int(rng.integers(0, 10**6)):06d}_{j}.json.gz'), 'wb') as fh:
-                fh.write(json.dumps(data).encode())
+        name = f'r{int(rng.integers(0, 10**6)):06d}_{j}.json' + ('.gz' if j % 2 == 0 else '')
+        blob = json.dumps(data).encode()
+        parts[j % n_parts].append((name, gzip.compress(blob) if j % 2 == 0 else blob))
+    if mode == 'dir':
+        for name, blob in parts[0]:
+            with open(os.path.join(root, name), 'wb') as fh:
+                fh.write(blob)
+        return root
+    paths = []
+    for k, members in enumerate(parts):
+        if not members:
+            continue
+        as_zip = mode == 'zips' and (k % 2 == 0 or k == 1)
+        if as_zip:
+            zp = os.path.join(root, f'part{k}.zip')
+            with zipfile.ZipFile(zp, 'w') as zf:
+                for name, blob in members:
+                    zf.writestr(f'results/{name}', blob)
+            paths.append(zp)
+        elif mode == 'paths' and k % 2:
+            for name, blob in members:
+                with open(os.path.join(root, name), 'wb') as fh:
+                    fh.write(blob)
+                paths.append(os.path.join(root, name))
         else:
-            with open(os.path.join(root, f'r{int(rng.integers(0, 10**6)):06d}_{j}.json'), 'w') as fh:
-                json.dump(data, fh)
+            d = os.path.join(root, f'part{k}')
+            os.makedirs(d)
+            for name, blob in members:
+                with open(os.path.join(d, name), 'wb') as fh:
+                    fh.write(blob)
+            paths.append(d)
+    return [paths[i] for i in rng.permutation(len(paths))]
 
 
 def eval_case(case):
@@ -126,10 +159,11 @@ def eval_case(case):
     recs = make_records(case)
     p_th = case['params'][0]
     rows = []
-    for li, (seed, per_file) in enumerate(case['layouts']):
+    for li, lay in enumerate(case['layouts']):
+        seed, per_file = lay[0], lay[1]
         root = os.path.join(base, f'l{li}')
-        write(root, recs, seed, per_file)
-        an = Analysis(root, verbose=False)
+        target = write(root, recs, seed, per_file, lay[2] if len(lay) > 2 else 'dir')
+        an = Analysis(target, verbose=False)
         th = an.thresholds
         if len(th) != 1:
             fail('one_threshold_row', f'{len(th)} rows')
@@ -171,7 +205,8 @@ def eval_case(case):
                       'window:' + case.get('shape', 'sym'),
                       'ragged-grid' if any(t != [0, 0] for t in (case.get('trims') or [])) else 'common-grid',
                       'C=0' if case['params'][4] == 0 else 'C>0',
-                      f"runs-per-point={case.get('runs', 1)}"],
+                      f"runs-per-point={case.get('runs', 1)}"] + sorted(
+                          {'supplied-as:' + (l[2] if len(l) > 2 else 'dir') for l in case['layouts']}),
            'evals': len(case['layouts'])}
     if aux:
         out['aux'] = aux
@@ -219,9 +254,10 @@ def cases(draw):
             offs = [0.85 * o for o in offs]
         rates = [round(p_th + o, 6) for o in offs]
     N = draw(st.sampled_from([4000, 20000]))
-    layouts = [[draw(st.integers(0, 10**6)), draw(st.integers(1, 12))]]
+    modes = st.sampled_from(['dir', 'dir', 'paths', 'zips', 'zips'])
+    layouts = [[draw(st.integers(0, 10**6)), draw(st.integers(1, 12)), draw(modes)]]
     if draw(st.booleans()):
-        layouts.append([draw(st.integers(0, 10**6)), draw(st.integers(1, 12))])
+        layouts.append([draw(st.integers(0, 10**6)), draw(st.integers(1, 12)), draw(modes)])
     # ragged grids: a distance may lack the outermost one or two rates on
     # either side (every distance keeps >= 7 rates around p_th)
     trims = [[0, 0]] * len(dist)
